@@ -171,7 +171,7 @@ def correspondence(ctx):
             for kind in ("multinomial", "slice"):
                 for start in (-1, 2):
                     cases.append(dict(kind=kind, ws=ws, hs=hs, lo=lo, bad=bad, table=table, maxd=3, extra=True, mdh=1000.0, start=start,
-                                      u0=None if kind == "multinomial" else 0.4))
+                                      u0=None if kind == "multinomial" else 0.4 + 1.0 / 977))   # not a ratio of two orbit weights: no tie at the slice level
         for _ in range(4 if not ctx.thorough else 12):
             cases.append(dict(kind="metro", ws=ws, hs=hs, lo=lo, bad=bad, table=table, n=int(rng.integers(1, 6)), start=int(rng.integers(-4, 5)),
                               d=int(rng.choice([-1, 1]))))
